@@ -47,6 +47,9 @@ KEYS = {
     "branchchunk": "branch-after-leaf-yielded-as-chunk",
     "shorteof": "short-source-eof-looks-like-clean-end",
 }
+STRESS_KEY = "cgozlib-zstream-in-go-memory"
+GC_FATAL = ("marking free object", "found pointer to free object", "found bad pointer in Go heap", "marked free object")
+STRESS_S = {"quick": 6, "thorough": 25}
 
 
 def index_cfg(families, scale, nsample):
@@ -112,10 +115,31 @@ def judge(ctx, recs, label):
     return out
 
 
+def cgo_stress(ctx, binp, seconds):
+    """Known finding: lib/cgozlib keeps its z_stream in Go memory; ordinary reads of a valid RAC+zlib file under a busy
+    garbage collector kill the process.  Probabilistic: a survived stress proves nothing and is only noted."""
+    r = ctx.run([binp, "-cgostress", str(seconds)], timeout=seconds * 20 + 120)
+    if r.returncode == 0:
+        ctx.notes.append("cgozlib GC stress survived %ds: %s" % (seconds, r.stdout.strip()[:100]))
+        return False
+    if not any(m in r.stderr for m in GC_FATAL):
+        raise ToolingError("racireplay -cgostress failed (%d): %s" % (r.returncode, r.stderr[:1500]))
+    first = [l for l in r.stderr.splitlines() if l.startswith("fatal error") or l.startswith("runtime:")][:3]
+    ctx.violation("reading a VALID RAC+zlib file through rac.Reader + raczlib (cgo build) while the garbage collector runs kills the "
+                  "process: " + " | ".join(first),
+                  {"key": STRESS_KEY, "stress": True, "seconds": seconds, "stderr_head": r.stderr[:1200]})
+    return True
+
+
 def run_harness(ctx, binp, args, out):
     r = ctx.run([binp] + args + ["-out", out], timeout=3000)
+    if r.returncode != 0 and any(m in r.stderr for m in GC_FATAL):
+        # the Go runtime's fatal error of the known finding cgozlib-zstream-in-go-memory hit the driver itself
+        # (it avoids the construct, so this should not happen): one more try.
+        ctx.notes.append("racireplay died with a GC fatal error (cgozlib z_stream in Go memory); retried")
+        r = ctx.run([binp] + args + ["-out", out], timeout=3000)
     if r.returncode != 0:
-        raise ToolingError("racireplay failed (%d): %s" % (r.returncode, r.stderr[-2000:]))
+        raise ToolingError("racireplay failed (%d): %s\n[...]\n%s" % (r.returncode, r.stderr[:1500], r.stderr[-1500:]))
     try:
         st = json.loads(r.stderr.strip().splitlines()[-1])
     except Exception:
@@ -130,12 +154,14 @@ def run_harness(ctx, binp, args, out):
 
 
 def load_witnesses():
+    """Committed witnesses that are files (the stress witness is not a file)."""
     ws = []
     fdir = os.path.join(vlib.VERIF, "findings")
     for fn in sorted(os.listdir(fdir)):
         if fn.startswith("C15-") and fn.endswith(".json"):
             rep = json.load(open(os.path.join(fdir, fn)))["replay"]
-            ws.append((fn, rep))
+            if "hex" in rep:
+                ws.append((fn, rep))
     return ws
 
 
@@ -178,6 +204,9 @@ def run(ctx, only_replay=None):
             fam_counts[name] = fam_counts.get(name, 0) + 1
         ctx.log("RacIndex exported %d abstract files: %s" % (len(rows), fam_counts))
 
+    if only_replay is not None and only_replay.get("stress"):
+        hit = cgo_stress(ctx, binp, 30)
+        return {}, ({0: "stress"} if hit else {})
     wit = load_witnesses() if only_replay is None else [("replay", only_replay)]
     wrows = {WITNESS_ID0 + k: rep["row"] for k, (fn, rep) in enumerate(wit) if rep.get("row") is not None}
 
@@ -325,6 +354,8 @@ def run(ctx, only_replay=None):
     else:
         return case_class, confirmed
 
+    stress_hit = cgo_stress(ctx, binp, STRESS_S[tier])
+
     # ---- 6. evidence
     nvalid = sum(1 for r in rows if r[3] == 1)
     nvalid_chunks = sum(1 for r in rows if r[3] == 1 and r[7])
@@ -361,6 +392,7 @@ def run(ctx, only_replay=None):
         "valid_by_rules": nvalid, "distinct_records_judged": len(recs),
         "not_accepted_cases_by_class": class_counts,
         "confirmed_with_4x_budget": len(confirmed),
+        "cgozlib_gc_stress_reproduced": stress_hit,
         "notes": ctx.notes[:20],
     }, assumptions=[
         "the abstract space is small: <= 3 index nodes, arity <= 3, pointers from {node slots, padding, size, beyond, bias-relative}, DPtrs from small sets",
